@@ -831,6 +831,59 @@ def _f109(vio):
     return _c20(vio) and vio.get("kind") == "value-differs" and bool(re.search(r"(?<![0-9])0\*", det.get("type") or ""))
 
 
+def _same_ignoring_key_order(a, b):
+    import json
+    try:
+        return json.dumps(a, sort_keys=True, default=str) == json.dumps(b, sort_keys=True, default=str)
+    except Exception:
+        return False
+
+
+@mechanism("F110a-numba-virtual-multidimensional-form")
+def _f110a(vio):
+    det = vio.get("detail") or {}
+    comp = det.get("compiled") or {}
+    return _c20(vio) and (vio.get("case") or {}).get("wrap") == "virtual" and \
+        "NumpyForm is multidimensional" in str(comp)
+
+
+@mechanism("F110b-numba-virtual-strided-leaves")
+def _f110b(vio):
+    """a VirtualArray whose generated array has a strided / offset leaf buffer is read as if it were compact"""
+    from vlib import model
+    case = vio.get("case") or {}
+    if not _c20(vio) or case.get("wrap") != "virtual" or vio.get("kind") != "value-differs":
+        return False
+    for _p, n in model.walk(case["layout"]):
+        if n["c"] == "NumpyArray" and n["shape"] and (n["lo"] != 0 or list(n["strides"])[:1] != [n["itemsize"]]):
+            return True
+    return False
+
+
+@mechanism("F110c-numba-virtual-record-field-order")
+def _f110c(vio):
+    """records coming out of a VirtualArray in compiled code have their fields in the (sorted) order of the Form"""
+    from vlib import model
+    case = vio.get("case") or {}
+    if not _c20(vio) or case.get("wrap") != "virtual" or vio.get("kind") != "value-differs":
+        return False
+    for _p, n in model.walk(case["layout"]):
+        if n["c"] == "RecordArray" and n["keys"] is not None and list(n["keys"]) != sorted(n["keys"]):
+            return True
+    return False
+
+
+@mechanism("F111-numba-partitioned-element-access")
+def _f111(vio):
+    """x[i] (and what is chained after it) on a partitioned array inside compiled code: elements that are arrays come
+    back through a view whose start/stop belong to another partition ('Index::getitem_range_nowrap with illegal
+    start:stop', 'slice index out of bounds', 'at=N is out of range'), negative i addresses the wrong partition"""
+    case = vio.get("case") or {}
+    det = vio.get("detail") or {}
+    return _c20(vio) and case.get("wrap") == "partitioned" and det.get("program") in ("at", "chain") and \
+        vio.get("kind") in ("outcome-differs", "value-differs")
+
+
 @mechanism("F10-reduce-nonlocal")
 def _f10(vio):
     rep = _report(vio)
